@@ -289,8 +289,8 @@ func (c20) Shrink(plan interface{}) []interface{} {
 	if p.Sim.Policy != "fifo" && p.Sim.Choices == nil {
 		add(func(q *C20Plan) { q.Sim.Policy = "fifo" })
 	}
-	if p.Sim.PoolBuggy || p.Sim.MapShuffle {
-		add(func(q *C20Plan) { q.Sim.PoolBuggy = false; q.Sim.MapShuffle = false })
+	if p.Sim.MapShuffle {
+		add(func(q *C20Plan) { q.Sim.MapShuffle = false })
 	}
 	return out
 }
